@@ -121,6 +121,21 @@ def run(ctx, rep) -> None:
             rep.nontrivial(rec)
     for i, label in sorted(bad.items()):
         rep.classified('', f'{label}: {recs[i]}', payload=recs[i])
+    # timers under the same policy (retry delays, permanence, sharp / interval / idle): the failing histories of the timers profile,
+    # validated against Trace_Timers (PermanentEndsIt, AfterTemp, AfterExc)
+    from concurrent.futures import ProcessPoolExecutor
+    from vf import timers as T
+    tscs = [sc_ for sc_ in T.gen_scenarios(ctx.seed + 3, 600 if ctx.quick else 6000) if any(k != 'ok' for (_d, k, _x) in sc_['runs'])][:120 if ctx.quick else 2500]
+    with ProcessPoolExecutor(16) as ex:
+        ttr = list(ex.map(T.run_scenario, tscs, chunksize=4))
+    tv = T.judge(ttr, rep)
+    rep.evaluations += len(ttr); rep.traces += len(ttr)
+    for t in ttr:
+        rep.nontrivial([t['conf'], [{k: v for k, v in e.items() if k != 't'} for e in t['events']]])
+        if t['stall']:
+            rep.violation(f'{t["id"]}: the event loop stalled', payload=t)
+        elif tv[t['id']]['verdict'] != 'accepted':
+            rep.violation(f'{t["id"]}: {tv[t["id"]]["verdict"]}', payload=t)
     from vf import handling as H
     rep.rule = ('(A) TLC exhaustive on MC_Handling_{%s}; (B) seeded random scenarios of profile(s) %s on the real operator, '
                 'judged by Trace_Handling; non-trivial = the trace shows one of %s; distinct = by abstract trace'
